@@ -12,6 +12,7 @@ func init() {
 		ID:    "C17",
 		Level: "exploration",
 		Rule: "generated histories of Inc/Count/Clone/Reset/advance on the frozen clock for N in 1..12 and 9 resolutions (whole and fractional), start instants unaligned; oracle = exact sums of the harness's own increment log over ages <= (N-1)r and < N r; " +
+			"clones are kept, incremented and read later, and merged back with Append (amount read back at the same instant); " +
 			"a history is non-trivial when some read saw an increment aged out and some read had a positive lower bound; distinct by (N, r, operation script)",
 		Assumptions: []string{"frozen library clock (hook); the interval between the two Now() calls inside one Inc cannot be split without a hook inside Inc"},
 		Parts: []Part{
@@ -91,6 +92,10 @@ func c17Counter(c *Ctx) {
 			log []c17Inc
 		}
 		var clones []*c17Clone
+		// a second counter with the same number of buckets but another resolution (metrics of another component merged in)
+		res2 := pick(r, c17Res)
+		other, _ := memmetrics.NewCounter(n, res2)
+		var otherLog []c17Inc
 		steps := 50 + r.IntN(c.N(150, 450))
 		script := make([]string, 0, steps)
 		agedOut, lowerPos := false, false
@@ -147,7 +152,34 @@ func c17Counter(c *Ctx) {
 					return
 				}
 			default:
-				switch r.IntN(4) {
+				switch r.IntN(6) {
+				case 4:
+					{
+						v := int64(1 + r.IntN(5))
+						other.Inc(int(v))
+						otherLog = append(otherLog, c17Inc{now(), v})
+						script = append(script, sfmt("other-inc%d", v))
+					}
+				case 5:
+					{
+						if err := rc.Append(other); err != nil {
+							// counters of different geometry may be refused; then nothing may have been added
+							script = append(script, "append-other-refused")
+							break
+						}
+						amt := other.Count()
+						lo, hi := c17Bounds(otherLog, now(), n, res2)
+						if amt < lo || amt > hi {
+							c.Violation("window/other", sfmt("N=%d r=%v: the second counter reports Count() = %d outside [%d,%d] of its own history at step %d", n, res2, amt, lo, hi, s),
+								map[string]any{"buckets": n, "resolution": res2.String(), "script": script})
+							return
+						}
+						if amt > 0 {
+							log = append(log, c17Inc{now(), amt})
+						}
+						script = append(script, sfmt("append-other(%v,%d)", res2, amt))
+						c.Count("other_resolution_appends", 1)
+					}
 				case 0:
 					rc.Reset()
 					log = log[:0]
